@@ -713,6 +713,9 @@ type zzC10Graph struct {
 	u     *zzC10Univ
 	acts  []zzC10Act
 	nodes map[string]*zzC10Node
+	// changes counts, per action name, the (state, instance) pairs of the
+	// emission that can change the table (vacuity check).
+	changes map[string]int
 }
 
 // zzC10Defaults are the outcome sets (replies; the table does not change) that
@@ -740,15 +743,32 @@ func zzC10ParseOuts(raw []any) (outs []zzC10Out) {
 	return outs
 }
 
-func zzC10LoadGraph(t testing.TB) (hdr *zzC10Hdr, g *zzC10Graph) {
-	g = &zzC10Graph{nodes: map[string]*zzC10Node{}}
-	zzReadNDJSON(t, "VERIF_IN", func(line []byte) {
-		if hdr == nil {
-			hdr = &zzC10Hdr{}
-			if err := json.Unmarshal(line, hdr); err != nil || hdr.Univ == nil {
-				t.Fatalf("bad header: %v", err)
-			}
+// zzC10Header reads the run's universe and options from VERIF_HDR.
+func zzC10Header(t testing.TB) (hdr *zzC10Hdr) {
+	hdr = &zzC10Hdr{}
+	if err := json.Unmarshal([]byte(zzGetenv("VERIF_HDR")), hdr); err != nil || hdr.Univ == nil {
+		t.Skipf("no usable VERIF_HDR: %v", err)
+	}
+	hdr.Univ.init(zzSeed())
 
+	return hdr
+}
+
+// zzC10LoadGraph reads the state lines of Dhcp4.tla's emission.  VERIF_IN is
+// either NDJSON or TLC's own output, where each line of interest has the form
+// <<"@@V", "<json as a TLA+ string literal>">>.
+func zzC10LoadGraph(t testing.TB, hdr *zzC10Hdr) (g *zzC10Graph) {
+	g = &zzC10Graph{nodes: map[string]*zzC10Node{}, changes: map[string]int{}}
+	const pre, suf = `<<"@@V", `, `>>`
+	zzReadNDJSON(t, "VERIF_IN", func(line []byte) {
+		if bytes.HasPrefix(line, []byte(pre)) && bytes.HasSuffix(line, []byte(suf)) {
+			lit := string(line[len(pre) : len(line)-len(suf)])
+			js, err := strconv.Unquote(lit)
+			if err != nil {
+				t.Fatalf("bad emission line: %v", err)
+			}
+			line = []byte(js)
+		} else if len(line) == 0 || line[0] != '{' {
 			return
 		}
 		var rec struct {
@@ -760,24 +780,34 @@ func zzC10LoadGraph(t testing.TB) (hdr *zzC10Hdr, g *zzC10Graph) {
 		if err := json.Unmarshal(line, &rec); err != nil {
 			t.Fatalf("bad state line: %v", err)
 		}
+		if rec.E == nil {
+			return
+		}
 		n := &zzC10Node{noadd: rec.Noadd, noupd: map[string]bool{}, edges: map[string][]zzC10Out{}}
 		for _, m := range rec.Noupd {
 			n.noupd[m] = true
 		}
 		for _, e := range rec.E {
 			a := zzC10Act{Name: e[0].(string), M: e[1].(string), Kind: e[2].(string), A: int(e[3].(float64)), H: e[4].(string)}
-			n.edges[a.key()] = zzC10ParseOuts(e[5].([]any))
+			outs := zzC10ParseOuts(e[5].([]any))
+			n.edges[a.key()] = outs
+			for _, o := range outs {
+				if !o.Same {
+					g.changes[a.Name]++
+
+					break
+				}
+			}
+			if a.Name == "Restart" {
+				g.changes[a.Name]++
+			}
 		}
 		g.nodes[zzC10Key(rec.S)] = n
 	})
-	if hdr == nil {
-		t.Fatalf("no header")
-	}
-	hdr.Univ.init(zzSeed())
 	g.u = hdr.Univ
 	g.acts = g.u.alphabet()
 
-	return hdr, g
+	return g
 }
 
 // enabled tells whether the spec enables a in the state of n, and returns the
@@ -1310,7 +1340,8 @@ func zzC10Base(t testing.TB) (base string) {
 
 // TestZZVerifC10Walk is direction A.
 func TestZZVerifC10Walk(t *testing.T) {
-	hdr, g := zzC10LoadGraph(t)
+	hdr := zzC10Header(t)
+	g := zzC10LoadGraph(t, hdr)
 	w := zzNewWriter(t, "VERIF_OUT")
 	defer w.close()
 	opts := hdr.Opts
@@ -1351,7 +1382,7 @@ func TestZZVerifC10Walk(t *testing.T) {
 		"abstract_states": len(states), "spec_states": len(g.nodes), "alphabet": len(g.acts),
 		"remaining": remaining, "closed": remaining == 0 && !t.Failed(),
 		"bad": wk.bad, "flaky": wk.flaky, "truncated": wk.truncated, "resets": wk.resets,
-		"nontrivial": len(wk.nontriv), "samples": wk.samples, "order": opts.Order, "workers": opts.Workers,
+		"spec_changing": g.changes, "nontrivial": len(wk.nontriv), "samples": wk.samples, "order": opts.Order, "workers": opts.Workers,
 	})
 }
 
@@ -1504,19 +1535,10 @@ func zzC10WellFormed(ls []zzC10L) (ok bool) {
 
 // TestZZVerifC10Trace is direction B: random histories, recorded.
 func TestZZVerifC10Trace(t *testing.T) {
-	var hdr *zzC10Hdr
-	zzReadNDJSON(t, "VERIF_IN", func(line []byte) {
-		if hdr == nil {
-			hdr = &zzC10Hdr{}
-			if err := json.Unmarshal(line, hdr); err != nil || hdr.Univ == nil {
-				t.Fatalf("bad header: %v", err)
-			}
-		}
-	})
+	hdr := zzC10Header(t)
 	w := zzNewWriter(t, "VERIF_OUT")
 	defer w.close()
 	u := hdr.Univ
-	u.init(zzSeed())
 	rng := rand.New(rand.NewSource(zzSeed()))
 	base := zzC10Base(t)
 	for run := 0; run < hdr.Opts.TraceRuns; run++ {
